@@ -1228,6 +1228,8 @@ class Evaluator(object):
         for op, rn in zip(node.ops, node.comparators):
             right = self.ev(rn, env)
             o = CMPOPS[type(op)]
+            if o in ("in", "notin"):
+                self._note_gen_iteration(rn, right)  # `x in gen` traverses (consumes) the generator
             t = tm.cmp(o, left, right)
             self.site("cmp", node, op=o, left=left, right=right, term=t)
             parts.append(t)
